@@ -28,6 +28,8 @@ CHECKS = {
          'runtime monitor: strict row-sequence oracle against the input reference model', '5/C14'),
  'C15': ('exploration', 'pairs of runs differing only in syntax theme (or in a file name of the same kind) compared cell by cell: characters, widths, backgrounds, attributes, links identical; foreground may differ only inside syntax-marked style slots',
          'runtime monitor: relational cell-by-cell oracle over theme pairs and rename pairs', '5/C15'),
+ 'C18': ('fault_enumeration', 'EPIPE injected by an LD_PRELOAD write(2) shim at every write call 1..N of each case (stdout and pager mode), real closed pipes, stub pagers quitting early; exit status pass-through with stub git/rg/differ; pager selection lattice with recording stub pagers (bytes delivered, less arguments, LESSCHARSET); delta observed not to exit before the pager\'s last act',
+         'runtime monitor: fault injection at every write call + recording stub pagers + exit-status oracle', '5/C18'),
  'C19': ('exploration', 'pairs of runs with hyperlinks off/on: OSC-8-stripped bytes identical; every link closed on its line; file and commit link targets recomputed independently from the input model and the displayed numbers',
          'runtime monitor: relational (hyperlinks on vs off) oracle + link-target reference model', '5/C19'),
  'C20': ('exploration', 'every feasible order of the critical sections of the calling-process cell (background store vs known store vs each query, incl. "query already waiting") forced through cfg-guarded gates for 10 scenarios, plus jitter/unforced runs (and a ThreadSanitizer build in the thorough tier); recorded traces replayed offline against a sequential register model, stdout compared across schedules, deadlock decided from thread states',
